@@ -1319,6 +1319,16 @@ pub fn parse(lex_tokens: &Vec<LexerToken>) -> Result<ParseResult, CompilerError>
         return Ok(ParseResult { root: 0, nodes });
     }
 
+    // the right operand of an operator is assumed to be the next node,
+    // trailing annotations create no node, so an optional right operand that never came is no operand
+    let node_count = nodes.len();
+    for node in nodes.iter_mut() {
+        match node.right {
+            Some(right) if right >= node_count => node.right = None,
+            _ => (),
+        }
+    }
+
     // walk up tree to find root
     trace!("Finding root node");
     let mut root = 0;
